@@ -2693,6 +2693,21 @@ func (fr *Frame) call(st *State, x *ssa.Call) bool {
 			st.heap[kd] = fmt.Sprintf("(ite (= %s 0) %s (store %s %s (store (select %s %s) %s false)))", mv.T, dom, dom, mv.T, dom, mv.T, kv2.T)
 		case "ssa:deferstack":
 			setRes(Val{c.fresh("ds", "U"), x.Type()})
+		case "max", "min":
+			if c.sortOf(x.Type()) == "Int" && len(x.Call.Args) >= 1 {
+				acc := fr.val(x.Call.Args[0]).T
+				for _, a := range x.Call.Args[1:] {
+					v := fr.val(a).T
+					if b.Name() == "max" {
+						acc = fmt.Sprintf("(ite (>= %s %s) %s %s)", acc, v, acc, v)
+					} else {
+						acc = fmt.Sprintf("(ite (<= %s %s) %s %s)", acc, v, acc, v)
+					}
+				}
+				setRes(Val{acc, x.Type()})
+			} else {
+				setRes(Val{c.fresh("builtin_"+b.Name(), c.sortOf(x.Type())), x.Type()})
+			}
 		default:
 			setRes(Val{c.fresh("builtin_"+b.Name(), c.sortOf(x.Type())), x.Type()})
 		}
